@@ -276,6 +276,9 @@ func (r *DecodeResult) NestedResults(tag int) ([]*DecodeResult, error) {
 	if fd == nil || len(fd.data) == 0 {
 		return nil, ErrTagNotFound
 	}
+	if fd.wt != csproto.WireTypeLengthDelimited {
+		return nil, wireTypeMismatchError(fd.wt, csproto.WireTypeLengthDelimited)
+	}
 	results := make([]*DecodeResult, 0, len(fd.data))
 	dec := r.nestedDecoders[nestedIdx]
 	for _, b := range fd.data {
